@@ -130,7 +130,7 @@ Lemma mask_nobbox_registers fmt d c :
   String.eqb (d_id d) "" = false -> str_in (d_id d) (c_masks c) = false ->
   mask_convert fmt d None c = (Some (d_id d), c_set_masks c (c_mask c) (d_id d :: c_masks c)).
 Proof.
-  intros H1 H2 H3 H4 H5 H6. unfold mask_convert.
+  intros H1 H2 H3 H4 H5 H6. unfold mask_convert, mask_once.
   repeat (cbn [steps_run mask_steps mask_step_run re_cache re_id re_all re_ret andb negb];
           first [rewrite H1 | rewrite H2 | rewrite H3 | rewrite H4 | rewrite H5 | rewrite H6]).
   reflexivity.
@@ -140,12 +140,12 @@ Lemma mask_second_use_generates fmt d bbox c :
   d_tag_ok d = true -> d_geom_ok d = true -> d_cacheable d = false ->
   String.eqb (d_id d) "" = false -> str_in (d_id d) (c_masks c) = true ->
   forall i k, gen_id fmt (id_fuel c) "mask" (c_all_ids c) (c_mask c) = Some (i, k) ->
-  d_content d (c_set_masks c k (c_masks c)) = (c_set_masks c k (c_masks c), true) -> d_content_obb d = false ->
+  d_content d (c_set_masks c k (c_masks c)) = (c_set_masks c k (c_masks c), true) -> d_content_obb d = false -> d_link d = None ->
   fst (mask_convert fmt d (Some bbox) c) = Some i.
 Proof.
-  intros H1 H2 H4 H5 H6 i k Hg Hc Hco. unfold mask_convert. destruct (d_units_obb d) eqn:H3;
-  repeat (cbn [steps_run mask_steps mask_step_run re_cache re_id re_all re_ret andb negb fst];
-          first [rewrite H1 | rewrite H2 | rewrite H3 | rewrite H4 | rewrite H5 | rewrite H6 | rewrite Hg | rewrite Hco | rewrite Hc]);
+  intros H1 H2 H4 H5 H6 i k Hg Hc Hco Hl. unfold mask_convert, mask_once. destruct (d_units_obb d) eqn:H3;
+  repeat (cbn [steps_run mask_steps mask_step_run run_linked re_cache re_id re_all re_ret andb negb fst];
+          first [rewrite H1 | rewrite H2 | rewrite H3 | rewrite H4 | rewrite H5 | rewrite H6 | rewrite Hg | rewrite Hco | rewrite Hc | rewrite Hl | progress unfold run_linked]);
   reflexivity.
 Qed.
 (* clippath::convert for an element without a bounding box: an objectBoundingBox clip path is refused before anything is
@@ -153,7 +153,7 @@ Qed.
 Lemma clip_obb_nobbox_inert fmt d c :
   d_units_obb d = true -> d_cacheable d = false -> clip_convert fmt d None c = (None, c).
 Proof.
-  intros H1 H2. unfold clip_convert. destruct (d_tag_ok d) eqn:H3, (d_geom_ok d) eqn:H4;
+  intros H1 H2. unfold clip_convert, clip_once. destruct (d_tag_ok d) eqn:H3, (d_geom_ok d) eqn:H4;
   repeat (cbn [steps_run clip_steps clip_step_run re_cache re_id re_all re_ret andb negb];
           first [rewrite H1 | rewrite H2 | rewrite H3 | rewrite H4]);
   reflexivity.
